@@ -85,7 +85,7 @@ def run(ctx):
     table = sf.get_semantic_constraints()
     nmol = 1200 if quick else 40000
     for i in range(nmol):
-        m = random_tree_mol(rng, rng.choice([4, 5, 6, 8, 12, 14]), p_ring=rng.choice([0.3, 0.6, 0.9]),
+        m = random_tree_mol(rng, rng.choice([4, 5, 6, 8, 12, 14] * 5 + [60, 200]), p_ring=rng.choice([0.3, 0.6, 0.9]),
                             p_chiral=1.0, p_stereo=0.5, p_double=0.1, p_triple=0, p_bracket=0.3,
                             ncomp=rng.choice([1, 1, 1, 2, 3, 5]), table=table)
         for k in range(4):
